@@ -13,8 +13,9 @@ def run(F, G, tier, seed):
                              "keywords": len(K.map)}
     lalr.run(chk, F, G, L, K)
     optable.run(chk, F, G, L, K, CallGraph(F))
+    optable.run_literals(chk, F, L)
     return chk.finish(
         "Decides the grouping clause of C02 for ALL nesting depths: an LR parser's shift/reduce decision depends "
         "only on (state, look-ahead), so checking every automaton state that holds a completed right-open operator "
         "item against the lexeme-keyed operator table covers every expression text.",
-        not_decided="identifier binding (C07), literal values (runtime arithmetic of atoi/atof)")
+        not_decided="identifier binding (C07); floating-point literal values (runtime arithmetic of atof); the value of an in-range integer literal beyond `verified against the lexeme`")
